@@ -7,6 +7,7 @@ import (
 	"fmt"
 	"reflect"
 	"strings"
+	"unicode/utf8"
 
 	"github.com/hprose/hprose-golang/v3/rpc/codec/jsonrpc"
 	"github.com/hprose/hprose-golang/v3/rpc/core"
@@ -68,9 +69,43 @@ type outcome struct {
 
 func trunc(s string, n int) string {
 	if len(s) > n {
+		for n > 0 && !utf8.RuneStart(s[n]) {
+			n--
+		}
 		return s[:n] + "..."
 	}
 	return s
+}
+
+// panicClass reduces a panic message to its kind ("index out of range [2] with length 2" -> "index-out-of-range").
+func panicClass(msg string) string {
+	msg = strings.TrimPrefix(msg, "runtime error: ")
+	if i := strings.IndexAny(msg, ":[("); i >= 0 {
+		msg = msg[:i]
+	}
+	msg = strings.TrimSpace(msg)
+	if len(msg) > 50 {
+		msg = msg[:50]
+	}
+	return strings.ReplaceAll(msg, " ", "-")
+}
+
+// simpler orders two violations of one signature: smaller rank first, ties broken by the case text so that
+// the reported example does not depend on the order in which workers finish.
+func simpler(a, b *viol) bool {
+	if a.Rank != b.Rank {
+		return a.Rank < b.Rank
+	}
+	return a.Case.tieKey() < b.Case.tieKey()
+}
+
+func (c *caseD) tieKey() string {
+	var sb strings.Builder
+	for _, v := range c.Vals {
+		fmt.Fprintf(&sb, "%03d,", v)
+	}
+	fmt.Fprintf(&sb, "|%02d|%d|%02d|%02d|%v%v%v|%v|%s", max(shapeIndex(reqShapes, c.Shape), shapeIndex(respShapes, c.Shape), shapeIndex(errShapes, c.Shape)), c.Hdr, c.Name, c.Err, c.CS, c.SS, c.Debug, c.Cfg, c.Svc)
+	return sb.String()
 }
 
 func (c *caseD) rank() int {
@@ -171,11 +206,23 @@ func canonOf(x interface{}) string {
 }
 
 func headerCanon(d core.Dict, json bool) string {
+	if m := d.ToMap(); len(m) == 0 || len(m) == 1 && m["simple"] != nil {
+		return "nil"
+	}
 	c := gen.Canon(reflect.ValueOf(withoutSimple(d.ToMap())))
 	if json {
 		c = jcanon(c)
 	}
 	return c
+}
+
+// typeDiffers: a value decoded for a typed (non-interface) destination must have exactly that type - the
+// service calls the method with it through reflection, the proxy returns it as the declared return type.
+func typeDiffers(x interface{}, dest reflect.Type) bool {
+	if dest == nil || dest.Kind() == reflect.Interface {
+		return false
+	}
+	return reflect.TypeOf(x) != dest
 }
 
 func destName(t reflect.Type) string {
@@ -227,6 +274,11 @@ func (c *caseD) sig(parts ...string) string {
 	}
 	return s
 }
+
+// countMismatch: the shapes in which the number of arguments does not fit the method's parameter list. The
+// statement defines the decoded values where the codec delivers them (compared as usual); an error instead
+// is acceptable there, a panic is not.
+var countMismatch = map[string]bool{"fewer-params": true, "more-params": true, "variadic-short": true}
 
 // ---- request direction (hprose codec) ----
 
@@ -286,10 +338,16 @@ func runReq(c *caseD) (out outcome) {
 	out.data = data
 	switch {
 	case msg != "":
-		out.v = c.viol(c.sig("panic", stage, "at="+iocase.PanicSite(stack)), "panic in "+stage+": "+msg, data)
+		out.v = c.viol(c.sig("panic", stage, "at="+iocase.PanicSite(stack), panicClass(msg)), "panic in "+stage+": "+msg, data)
 		return
 	case encErr != nil:
 		out.v = c.viol(c.sig("encode-error"), "client codec Encode: "+encErr.Error(), data)
+		return
+	case decErr != nil && sc.Method == nil:
+		out.v = c.viol(c.sig("method", "not-resolved"), fmt.Sprintf("registered %q, called %q: %s", nm.Reg, nm.Call, decErr.Error()), data)
+		return
+	case decErr != nil && countMismatch[c.Shape]:
+		out.noValue = true // an error for a call whose argument count does not fit the method is a defined outcome
 		return
 	case decErr != nil:
 		out.v = c.viol(c.sig("args", c.Shape, "decode-error"), "service codec Decode: "+decErr.Error(), data)
@@ -309,7 +367,7 @@ func runReq(c *caseD) (out outcome) {
 		return
 	}
 	if want, have := hdrH[c.Hdr].canon, headerCanon(sc.RequestHeaders(), false); want != have {
-		out.v = c.viol(c.sig("headers", hdrNames[c.Hdr], "value-differs"), fmt.Sprintf("headers want %s got %s", trunc(want, 300), trunc(have, 300)), data)
+		out.v = c.viol(c.sig("headers", "value-differs"), fmt.Sprintf("headers want %s got %s", trunc(want, 300), trunc(have, 300)), data)
 		return
 	}
 	if len(gotArgs) != len(args) {
@@ -318,8 +376,13 @@ func runReq(c *caseD) (out outcome) {
 	}
 	for i, a := range args {
 		if have := canonOf(gotArgs[i]); have != a.Canon {
-			out.v = c.viol(c.sig("args", c.Shape, "value-differs", "type="+a.T.String(), "dest="+destName(si.dest[i])),
-				fmt.Sprintf("argument %d: want %s got %s (%T)", i, trunc(a.Canon, 300), trunc(have, 300), gotArgs[i]), data)
+			out.v = c.viol(c.sig("args", c.Shape, "value-differs"),
+				fmt.Sprintf("argument %d (%s -> %s): want %s got %s (%T)", i, a.T, destName(si.dest[i]), trunc(a.Canon, 300), trunc(have, 300), gotArgs[i]), data)
+			return
+		}
+		if typeDiffers(gotArgs[i], si.dest[i]) {
+			out.v = c.viol(c.sig("args", c.Shape, "type-differs"),
+				fmt.Sprintf("argument %d: decoded as %T for parameter type %s", i, gotArgs[i], si.dest[i]), data)
 			return
 		}
 	}
@@ -399,19 +462,22 @@ func runResp(c *caseD) (out outcome) {
 	out.noValue = noValue
 	switch {
 	case msg != "":
-		out.v = c.viol(c.sig("panic", stage, "at="+iocase.PanicSite(stack)), "panic in "+stage+": "+msg, data)
+		out.v = c.viol(c.sig("panic", stage, "at="+iocase.PanicSite(stack), panicClass(msg)), "panic in "+stage+": "+msg, data)
 		return
 	case encErr != nil:
 		out.v = c.viol(c.sig("encode-error"), "service codec Encode: "+encErr.Error(), data)
 		return
 	case noValue:
 		return
+	case decErr != nil && nrt != nres && nrt != 0:
+		out.noValue = true // an error for a result count that does not fit the declared return types is a defined outcome
+		return
 	case decErr != nil:
 		out.v = c.viol(c.sig("result", c.Shape, "decode-error"), "client codec Decode: "+decErr.Error(), data)
 		return
 	}
 	if want, have := hdrH[c.Hdr].canon, headerCanon(cc.ResponseHeaders(), false); want != have {
-		out.v = c.viol(c.sig("headers", hdrNames[c.Hdr], "value-differs"), fmt.Sprintf("headers want %s got %s", trunc(want, 300), trunc(have, 300)), data)
+		out.v = c.viol(c.sig("headers", "value-differs"), fmt.Sprintf("headers want %s got %s", trunc(want, 300), trunc(have, 300)), data)
 		return
 	}
 	if nrt == 0 {
@@ -427,10 +493,15 @@ func runResp(c *caseD) (out outcome) {
 		} else {
 			have = zeroCanon(si.params[i]) // the proxy fills results the codec did not deliver with zero values
 		}
+		if i < len(got) && typeDiffers(got[i], si.params[i]) {
+			out.v = c.viol(c.sig("result", c.Shape, "type-differs"),
+				fmt.Sprintf("result %d: decoded as %T for return type %s", i, got[i], si.params[i]), data)
+			return
+		}
 		if i < nres {
 			if have != res[i].Canon {
-				out.v = c.viol(c.sig("result", c.Shape, "value-differs", "type="+res[i].T.String(), "dest="+destName(si.params[i])),
-					fmt.Sprintf("result %d: want %s got %s", i, trunc(res[i].Canon, 300), trunc(have, 300)), data)
+				out.v = c.viol(c.sig("result", c.Shape, "value-differs"),
+					fmt.Sprintf("result %d (%s -> %s): want %s got %s", i, res[i].T, destName(si.params[i]), trunc(res[i].Canon, 300), trunc(have, 300)), data)
 				return
 			}
 		} else if want := zeroCanon(si.params[i]); have != want {
@@ -476,7 +547,7 @@ func runErr(c *caseD) (out outcome) {
 	out.data = data
 	switch {
 	case msg != "":
-		out.v = c.viol(c.sig("panic", stage, "at="+iocase.PanicSite(stack)), "panic in "+stage+": "+msg, data)
+		out.v = c.viol(c.sig("panic", stage, "at="+iocase.PanicSite(stack), panicClass(msg)), "panic in "+stage+": "+msg, data)
 		return
 	case encErr != nil:
 		out.v = c.viol(c.sig("encode-error"), "service codec Encode: "+encErr.Error(), data)
@@ -500,7 +571,7 @@ func runErr(c *caseD) (out outcome) {
 		return
 	}
 	if want, have := hdrH[c.Hdr].canon, headerCanon(cc.ResponseHeaders(), false); want != have {
-		out.v = c.viol(c.sig("headers", hdrNames[c.Hdr], "value-differs"), fmt.Sprintf("headers want %s got %s", trunc(want, 300), trunc(have, 300)), data)
+		out.v = c.viol(c.sig("headers", "value-differs"), fmt.Sprintf("headers want %s got %s", trunc(want, 300), trunc(have, 300)), data)
 	}
 	return
 }
